@@ -613,6 +613,8 @@ pub fn def_c21() -> CheckDef {
             batch(Wire1 { name: "stack1-seeded-cuts", mode: Mode::Cuts, prop: "C21" }, 20_000, 1_200_000, true),
             batch(Wire2 { name: "stack2-seeded-cuts", mode: Mode::Cuts, prop: "C21", kernel: false }, 20_000, 1_200_000, true),
             batch(Wire2 { name: "stack2-cuts-kernel-unix-socketpair", mode: Mode::Cuts, prop: "C21", kernel: true }, 4_000, 250_000, true),
+            batch(crate::engines::p2p::modeb::RealManager { name: "real-pool-recut-replies", faults: false, cuts: true }, 2_000, 120_000, true),
+            batch(crate::engines::p2p::modeb::RealManager { name: "real-pool-recut-replies-faults", faults: true, cuts: true }, 1_000, 60_000, true),
         ],
         rule: "a simulated sender concatenates the encodings of 1..8 generated messages per protocol (1..3 protocols, all 11 stack-1 and 8 stack-2 protocol/message variants), cuts them into segments (streams <= 12 bytes: a seeded mask over all 2^(n-1) cut sets; longer: all-1-byte, single cut at any offset, cuts at / next to message boundaries, dense random, k random cuts; never above 65535), interleaves the fragments of different protocols and writes raw segments into a seeded pipe (short reads, stalls, delays, tiny capacities); the real Demuxer+ChannelBuffer::recv_full_msg (stack 1) and BearerReadHalf::read_full_msgs+AnyMessage::from_payload (stack 2) must yield exactly the sent messages in order, then the sentinel, with no error and no left-over bytes; a third batch writes the same raw segments into a kernel Unix socketpair (seeded SO_SNDBUF/SO_RCVBUF down to the kernel minimum) read through the real Bearer::Unix arm of network2; non-trivial = completed run with a non-neutral choice; distinct = distinct traces",
         real: vec!["pallas_network::multiplexer::{Demuxer, Plexer, ChannelBuffer::recv_full_msg, try_decode_message}", "pallas_network2 BearerReadHalf::Unix over a kernel socketpair (batch stack2-cuts-kernel-unix-socketpair)", "every stack-1 message codec", "pallas_network2::bearer::BearerReadHalf::{read_segment, read_full_msgs}", "AnyMessage::from_payload / try_decode_msg", "every stack-2 message codec"],
